@@ -29,7 +29,9 @@ type c04World struct {
 	params [][]byte // parameter values handed to statements
 }
 
-func (w *c04World) ev(format string, a ...any) { w.events = append(w.events, fmt.Sprintf(format, a...)) }
+func (w *c04World) ev(format string, a ...any) {
+	w.events = append(w.events, fmt.Sprintf(format, a...))
+}
 
 func c04Parse(w *c04World) wire.ParseFn {
 	w.rec.StmtOpts = func(q string) []wire.PreparedOptionFn {
@@ -103,7 +105,7 @@ type c04Session struct {
 	Name     string
 	NoPrefix bool // not part of the prefix-closure family (whole-session family only)
 	Auth     bool
-	Segs [][]byte // logical messages (for naming / boundaries); delivered as one stream
+	Segs     [][]byte // logical messages (for naming / boundaries); delivered as one stream
 }
 
 func (s c04Session) stream() []byte { return bytes.Join(s.Segs, nil) }
@@ -732,10 +734,10 @@ func c04RunRaw(raw []byte, afterStartup bool) explore.Result {
 
 func init() {
 	explore.Register(&explore.Check{
-		ID:        "C04",
-		Level:     "fault_enumeration",
-		Technique: "exhaustive enumeration of truncation points, field mutations, raw byte strings and transport fault positions (k-th read, k-th write, n-th byte) over a corpus of canonical sessions, each run on a real server inside crash-isolated worker processes, followed by a probe connection on the same server",
-		Rule:      "prefix closure: every byte prefix of ~190 canonical sessions (startup / SSL refusal / auth x simple, extended, COPY text+binary, oversized, unknown, terminate); mutations: every length / count field of every message type x {0,1,n-1,n+1,255,256,32767,32768,65535} or {0,1,3,4,n-1,n+1,2^31-1,2^31,2^32-2,2^32-1}, body as is and cut/extended to match; raw: all strings of length <= 5 (fresh) / <= 3 (after startup) over {00,01,04,08,7F,80,FF,Q,p}; faults: every k-th read fails / is short, every k-th write fails, failure after every n-th byte; non-trivial = the case ends the connection before its natural end or carries a mutated field",
+		ID:          "C04",
+		Level:       "fault_enumeration",
+		Technique:   "exhaustive enumeration of truncation points, field mutations, raw byte strings and transport fault positions (k-th read, k-th write, n-th byte) over a corpus of canonical sessions, each run on a real server inside crash-isolated worker processes, followed by a probe connection on the same server",
+		Rule:        "prefix closure: every byte prefix of ~190 canonical sessions (startup / SSL refusal / auth x simple, extended, COPY text+binary, oversized, unknown, terminate); mutations: every length / count field of every message type x {0,1,n-1,n+1,255,256,32767,32768,65535} or {0,1,3,4,n-1,n+1,2^31-1,2^31,2^32-2,2^32-1}, body as is and cut/extended to match; raw: all strings of length <= 5 (fresh) / <= 3 (after startup) over {00,01,04,08,7F,80,FF,Q,p}; faults: every k-th read fails / is short, every k-th write fails, failure after every n-th byte; non-trivial = the case ends the connection before its natural end or carries a mutated field",
 		Assumptions: []string{"which error (if any) is sent for malformed input is not asserted", "wedge detection: a 60 s watchdog whose expiry only counts when a stack dump shows a blocked library goroutine; livelock: more than 64 reads after EOF", "live-heap bound 4*max(L,4096)+8 MiB sampled with forced GC"},
 		Enumerate:   c04Enumerate,
 		Bounds: func(tier string) map[string]any {
